@@ -185,4 +185,48 @@ example : L.Dims3 ([[[1, 2, 3], [4, 5, 6]]] : V3 Nat) 1 2 3 := by
 example : L.toTriple 3 1 2 [1, 2, 3, 4, 5, 6] = .ok [[[1, 2]], [[3, 4]], [[5, 6]]] := by rfl
 example : L.toTriple 2 2 2 [1, 2, 3, 4, 5, 6] = .error .index := by rfl
 
+omit [Scalar α] in
+/-- **row-major, position by position**: element `(i, j, k)` of a well-formed `c × h × w` tensor is
+    element `i·(h·w) + j·w + k` of its flat sequence (what `flatten` / `get_flat` hand on) -/
+theorem flat_position (c h w : Nat) (d : V3 α) (hd : L.Dims3 d c h w) (i j k : Nat) (hj : j < h) (hk : k < w) :
+    (⟨.triple c h w, .triple d⟩ : Tensor α).flat[i * (h * w) + (j * w + k)]? =
+      ((d[i]?).bind (·[j]?)).bind (·[k]?) := by
+  simpa [flat] using L.flatten3_getElem? d c h w hd i j k hj hk
+
+/-- a 3-D → 3-D reshape moves no element along the sequence: whatever sits at `(i, j, k)` of the
+    source sits at every `(i', j', k')` of the result with the same row-major position -/
+theorem reshape_3d_to_3d_positions (c h w c' h' w' : Nat) (d : V3 α) (hd : L.Dims3 d c h w)
+    (hn : c * h * w = c' * h' * w') :
+    ∃ d', (⟨.triple c h w, .triple d⟩ : Tensor α).reshape (.triple c' h' w') = .ok ⟨.triple c' h' w', .triple d'⟩ ∧
+      ∀ i j k i' j' k', j < h → k < w → j' < h' → k' < w' →
+        i * (h * w) + (j * w + k) = i' * (h' * w') + (j' * w' + k') →
+        ((d'[i']?).bind (·[j']?)).bind (·[k']?) = ((d[i]?).bind (·[j]?)).bind (·[k]?) := by
+  obtain ⟨r, h1, h2, h3, h4⟩ := reshape_3d_to_3d c h w c' h' w' d hd hn
+  obtain ⟨s, dd⟩ := r
+  simp at h2; subst h2
+  cases dd with
+  | triple x =>
+    simp [Wf] at h3
+    simp [flat] at h4
+    refine ⟨x, h1, ?_⟩
+    intro i j k i' j' k' hj hk hj' hk' e
+    rw [← L.flatten3_getElem? x c' h' w' h3 i' j' k' hj' hk', ← L.flatten3_getElem? d c h w hd i j k hj hk, h4, e]
+  | single x => simp [Wf] at h3
+  | double x => simp [Wf] at h3
+  | quadruple x => simp [Wf] at h3
+
+omit [Scalar α] in
+/-- vector → 3-D: element `(i, j, k)` of the result is element `i·(h·w) + j·w + k` of the vector -/
+theorem reshape_vec_to_3d_positions (c h w : Nat) (v : V1 α) (hv : v.length = c * h * w) :
+    ∃ d', (⟨.single v.length, .single v⟩ : Tensor α).reshape (.triple c h w) = .ok ⟨.triple c h w, .triple d'⟩ ∧
+      ∀ i j k, j < h → k < w →
+        ((d'[i]?).bind (·[j]?)).bind (·[k]?) = v[i * (h * w) + (j * w + k)]? := by
+  obtain ⟨t, h1, h2, h3⟩ := L.toTriple_exact c h w v hv
+  refine ⟨t, by simp [reshape, getFlat, hv, h1], ?_⟩
+  intro i j k hj hk
+  rw [← L.flatten3_getElem? t c h w h2 i j k hj hk, h3]
+
+/-- non-vacuity: a 2 × 2 × 3 tensor, element (1, 0, 2) at position 1·6 + 0·3 + 2 = 8 -/
+example : (L.flatten3 [[[0, 1, 2], [3, 4, 5]], [[6, 7, 8], [9, 10, 11]]] : List Nat)[1 * (2 * 3) + (0 * 3 + 2)]? = some 8 := by decide
+
 end C14
